@@ -341,6 +341,13 @@ impl<'a> Model<'a> {
                 let r = Self::eval_res(self.eval_stmts(&t, &c))?;
                 Res::Many(vec![r, mdump(&c)])
             }
+            Op::ExecSole { prog, slot } => {
+                // who owns the handle is invisible to the caller: the same as `Exec` on the slot
+                let c = self.slots[*slot].clone();
+                let t = self.parse(prog)?;
+                let r = Self::eval_res(self.eval_stmts(&t, &c))?;
+                Res::Many(vec![r, mdump(&c)])
+            }
             Op::Parse { prog } => {
                 let t = self.parse(prog)?;
                 Res::Ast(stmts_ast_debug(&t))
